@@ -3,16 +3,19 @@
   Property theorems only (helper lemmas live in Torf.Lemmas.Lists*).
 
   Model: `Torf.Lists.step` (Torf/Model/Lists.lean), specification: `Torf.Lists.Spec.holds`
-  (Torf/Spec/Lists.lean).  `isUrl` is `utils.is_url`, an arbitrary parameter: since /repo ae2b587
-  `URL()` validates the given AND the stored (space→plus) string (`Torf.Lists.accepts`), so the
-  former assumption `isUrl u → isUrl (spaceToPlus u)` is no longer needed anywhere.
+  (Torf/Spec/Lists.lean).  `isUrl` is `utils.is_url`, an arbitrary parameter (no assumption on it:
+  `URL()` validates the given AND the stored (space→plus) string, /repo ae2b587).
 
-  The code falsifies the full statement in two ways (findings D16a, D16b), so the full statement
-  is kept as `def …_full : Prop`, the theorems are proved for histories without index/slice
-  assignment on a URL list and without slice assignment on the tiers (`Op.affected = false`), and
-  the witnesses of the findings are proved to falsify the full statement (the same witnesses are
-  replayed on the implementation).  For a list object that the caller holds, a `Trackers.replace`
-  that raises leaves the object half replaced (finding D16d, `C16_held_*`).
+  Since /repo e62ce6d index and slice assignment on a URL list (`lst[i] = u`, `lst[a:b:st] = us`:
+  coerce, assign on a copy, clear, add every item again through the de-duplication filter) are
+  inside the theorems, and since /repo 41bec34 `Trackers.replace` validates before it clears.  The
+  code still falsifies the full statement in ONE way (open finding D16b: slice assignment on the
+  tiers container, `torrent.trackers[a:b] = …`), so the full statement is kept as
+  `def …_full : Prop`, the `_partial` theorems are proved for histories without that operation
+  (`Op.affected = false`), and the witness of the finding is proved to falsify the full statement
+  (the same witness is replayed on the implementation).  The theorems about a `Trackers` object
+  that the caller holds have no excluded operation any more (`C16_held_sync*`); the former
+  findings D16a and D16d are regression examples below.
 -/
 import Torf.Lemmas.Lists
 import Torf.Lemmas.ListsReject
@@ -29,16 +32,16 @@ def C16_inv_reachable_full : Prop :=
 
 /-- one step: the inductive invariant `Inv` (the fields are exactly what the write-back callbacks
     produce for duplicate-free, valid, space-free lists without an empty tier) is preserved by
-    every operation other than index/slice assignment, whether it succeeds or raises — for every
-    `is_url` whatsoever -/
+    every operation other than slice assignment on the tiers container — index and slice assignment
+    on the seed lists and on a tier included — whether it succeeds or raises, for every `is_url` -/
 theorem C16_inv_step_partial (isUrl : String → Bool) (s : MI) (op : Op)
     (hs : Inv isUrl s) (hop : op.affected = false) :
     Inv isUrl (step isUrl s op).1 ∧
     Spec.holds isUrl (step isUrl s op).1 (readBack isUrl (step isUrl s op).1) = true :=
   ⟨step_inv hs hop, Inv_holds (step_inv hs hop)⟩
 
-/-- every history (any length, any operations other than index/slice assignment, failed
-    operations included) from the empty torrent ends in a state that satisfies the property -/
+/-- every history (any length, any operations other than `trackers[a:b] = …`, failed operations
+    included) from the empty torrent ends in a state that satisfies the property -/
 theorem C16_inv_reachable_partial (isUrl : String → Bool) (ops : List Op)
     (hops : ∀ op ∈ ops, op.affected = false) :
     Spec.holds isUrl (run isUrl MI.init ops) (readBack isUrl (run isUrl MI.init ops)) = true :=
@@ -50,6 +53,16 @@ theorem C16_inv_from_partial (isUrl : String → Bool) (s : MI) (ops : List Op)
     (hs : Inv isUrl s) (hops : ∀ op ∈ ops, op.affected = false) :
     Spec.holds isUrl (run isUrl s ops) (readBack isUrl (run isUrl s ops)) = true :=
   Inv_holds (run_inv hs hops)
+
+/-- the seed lists have no excluded operation at all: every history of operations on
+    `torrent.webseeds` / `torrent.httpseeds` (assignment, every in-place edit, index and slice
+    assignment with any step) keeps the property -/
+theorem C16_inv_seeds_reachable (isUrl : String → Bool) (ops : List Op)
+    (hops : ∀ op ∈ ops, (∃ o, op = .webseeds o) ∨ (∃ o, op = .httpseeds o)) :
+    Spec.holds isUrl (run isUrl MI.init ops) (readBack isUrl (run isUrl MI.init ops)) = true := by
+  apply C16_inv_reachable_partial
+  intro op hop
+  rcases hops op hop with ⟨o, rfl⟩ | ⟨o, rfl⟩ <;> rfl
 
 /-- read-back is total and faithful on invariant states: the getters return exactly the stored
     tiers / seed lists (nothing is dropped, re-ordered or re-coerced) -/
@@ -64,7 +77,8 @@ theorem C16_readback_total (isUrl : String → Bool) (s : MI) (hs : Inv isUrl s)
 
 /-- an operation that tries to store a URL that `URL()` does not accept — invalid as given OR
     invalid after its spaces were replaced by '+' (`accepts`) — raises the URL error, whatever the
-    state, whatever else it was given (index/slice assignment included), and, unless it is
+    state, whatever else it was given (index/slice assignment included, also with an index out of
+    range or an extended slice of the wrong size: the coercion comes first), and, unless it is
     extend / += (which store value by value), leaves the metainfo untouched.  With
     `C16_inv_step_partial` (every stored URL is valid) the invalid URL is never stored. -/
 theorem C16_reject (isUrl : String → Bool) (s : MI) (op : Op) (u : String)
@@ -87,67 +101,143 @@ theorem C16_reject_invalid (isUrl : String → Bool) (s : MI) (op : Op) (u : Str
     (step isUrl s op).2 = .error .url ∧ (op.atomic = true → (step isUrl s op).1 = s) :=
   step_reject hu (by simp [accepts, hinv]) hti
 
+/-- index / slice assignment on a URL list is all-or-nothing: when it raises (URL error, index out
+    of range, extended slice of the wrong size, step 0) the callback is not called — nothing is
+    written — and when it succeeds the list handed to the callback is duplicate-free, has only good
+    URLs and none that lives in another tier (`known`) -/
+theorem C16_setitem_atomic_and_deduplicated (isUrl : String → Bool) (known items : List String)
+    (op : UOp) (hop : (∃ i u, op = .setItem i u) ∨ (∃ a b st us, op = .setSlice a b st us))
+    (hk : UOK isUrl known items) :
+    match urlsOp isUrl known items op with
+    | (none, out) => out ≠ .ok
+    | (some r, out) => out = .ok ∧ r.Nodup ∧ (∀ u ∈ r, isUrl u = true ∧ u ∉ known) := by
+  rcases h : urlsOp isUrl known items op with ⟨last, out⟩
+  have hok : ∀ r, last = some r → UOK isUrl known r := fun r hr => urlsOp_ok hk (hr ▸ h)
+  have hout : (last = none → out ≠ .ok) ∧ (∀ r, last = some r → out = .ok) := by
+    rcases hop with ⟨i, u, rfl⟩ | ⟨a, b, st, us, rfl⟩
+    · simp only [urlsOp] at h
+      split at h
+      · cases h; simp
+      · split at h <;> (cases h; simp)
+    · simp only [urlsOp] at h
+      split at h
+      · cases h; simp
+      · split at h <;> (cases h; simp)
+  cases last with
+  | none => exact hout.1 rfl
+  | some r =>
+    have := hok r rfl
+    exact ⟨hout.2 r rfl, this.1, fun u hu => ⟨(this.2.1 u hu).1, this.2.2 u hu⟩⟩
+
+/-- assigning a good list to itself changes nothing: `l[:] = l`, `l[i] = l[i]`
+    (`torrent.webseeds[:] = torrent.webseeds` used to store `None`s — former finding D16a) -/
+theorem C16_setslice_self_identity (isUrl : String → Bool) (known items : List String)
+    (hk : UOK isUrl known items) :
+    urlsOp isUrl known items (.setSlice none none none items) = (some items, .ok) := by
+  simp only [urlsOp, coerceAll_id hk.2.1, sliceAssign, sliceRange, Option.getD_none, if_true, splice]
+  simp only [List.take_zero, List.nil_append, Nat.max_eq_right, Nat.zero_le,
+    List.drop_length, List.append_nil]
+  have := readd_id (isUrl := isUrl) (known := known) (acc := []) (xs := items) (by simpa using hk)
+  simpa using this
+
 /-! ### non-vacuity -/
 
 /-- `is_url` restricted to the strings of the witnesses (agrees with the real function there) -/
 def wIsUrl (s : String) : Bool :=
-  s == "http://a/1" || s == "http://b/2" || s == "http://a b" || s == "http://a+b"
+  s == "http://a/1" || s == "http://b/2" || s == "udp://c:80/3" || s == "http://a b" || s == "http://a+b"
 
 /-- the hypotheses of the `_partial` theorems are satisfiable by a non-trivial history that
-    exercises de-duplication by coercion, a failing operation, tier removal and `+=` -/
+    exercises de-duplication by coercion, a failing operation, tier removal, `+=`, index and slice
+    assignment (duplicate among the new items, a URL of another tier, an extended slice, a tier
+    emptied by an assignment) -/
 def wClean : List Op :=
   [.trackers (.set (.list [.list ["http://a/1", "http://a b"], .str "http://b/2"])),
    .trackers (.tier 0 (.append "http://a+b")),          -- duplicate after coercion: ignored
    .trackers (.tier 1 (.append "foo")),                 -- URL error
-   .trackers (.tier (-1) .clear),                       -- tier removed
+   .trackers (.tier 0 (.setItem 1 "http://b/2")),       -- lives in tier 1: dropped, tier 0 = [a]
+   .trackers (.tier (-1) (.setSlice none none none ["http://a/1"])),   -- tier 1 emptied: removed
    .webseeds (.edit (.iadd ["http://b/2", "http://a b"])),
-   .webseeds (.edit (.insert (-1) "http://a/1"))]
+   .webseeds (.edit (.insert (-1) "http://a/1")),       -- [b, a, a+b]
+   .webseeds (.edit (.setSlice none none (some 2) ["http://a+b", "udp://c:80/3"])),   -- [a+b, a, c]
+   .webseeds (.edit (.setSlice (some 0) (some 0) none ["http://b/2", "http://b/2", "http://a/1"])),
+   .webseeds (.edit (.setSlice none none (some 2) ["http://b/2"])),    -- wrong size: ValueError
+   .webseeds (.edit (.setItem 7 "http://b/2"))]                        -- IndexError
 
 example : (∀ op ∈ wClean, op.affected = false) ∧
     run wIsUrl MI.init wClean =
-      { announce := some "http://a/1", announceList := some [["http://a/1", "http://a+b"]],
-        urlList := some ["http://b/2", "http://a/1", "http://a+b"], httpseeds := none } := by
+      { announce := some "http://a/1", announceList := none,
+        urlList := some ["http://b/2", "http://a/1", "http://a+b", "udp://c:80/3"], httpseeds := none } := by
   decide
 
 example : (step wIsUrl MI.init (.webseeds (.set (.list ["http://a/1", "foo"])))) =
     (MI.init, .error .url) := by decide
 
-/-! ### counterexamples (known findings; the same histories are replayed on the code) -/
+/-- the order of the errors of an index / slice assignment: URL error before IndexError /
+    ValueError; every one of them leaves the state untouched -/
+example :
+    let s := run wIsUrl MI.init [.webseeds (.set (.list ["http://a/1", "http://b/2", "udp://c:80/3"]))]
+    [step wIsUrl s (.webseeds (.edit (.setItem 9 "foo"))),
+     step wIsUrl s (.webseeds (.edit (.setItem 9 "http://a/1"))),
+     step wIsUrl s (.webseeds (.edit (.setItem (-4) "http://a/1"))),
+     step wIsUrl s (.webseeds (.edit (.setSlice none none (some 2) ["http://a/1", "foo"]))),
+     step wIsUrl s (.webseeds (.edit (.setSlice none none (some 2) ["http://a/1"]))),
+     step wIsUrl s (.webseeds (.edit (.setSlice none none (some 0) ["http://a/1"]))),
+     step wIsUrl s (.webseeds (.edit (.setSlice (some 1) (some 2) none ["http://a/1", "foo", "http://b/2"])))]
+    = [(s, .error .url), (s, .error .index), (s, .error .index), (s, .error .url), (s, .error .value),
+       (s, .error .value), (s, .error .url)] := by decide
 
-/-- D16a, index assignment: `webseeds = [a, b]; webseeds[0] = b` stores 'None' -/
+/-- reversing through an extended slice works (`l[::-1] = list(l)`), a swap through two index
+    assignments cannot (the first assignment creates a duplicate, which is dropped) -/
+example :
+    let s := run wIsUrl MI.init [.webseeds (.set (.list ["http://a/1", "http://b/2", "udp://c:80/3"]))]
+    (step wIsUrl s (.webseeds (.edit (.setSlice none none (some (-1)) ["http://a/1", "http://b/2", "udp://c:80/3"])))).1.urlList
+      = some ["udp://c:80/3", "http://b/2", "http://a/1"] ∧
+    (step wIsUrl s (.webseeds (.edit (.setItem 0 "udp://c:80/3")))).1.urlList
+      = some ["udp://c:80/3", "http://b/2"] := by decide
+
+/-! ### regression: the former finding D16a (repaired in /repo e62ce6d) -/
+
+/-- `webseeds = [a, b]; webseeds[0] = b` (stored 'None', read-back failed): now `[b]` -/
 def wD16a : List Op :=
   [.webseeds (.set (.list ["http://a/1", "http://b/2"])),
    .webseeds (.edit (.setItem 0 "http://b/2"))]
 
-theorem C16_inv_reachable_counterexample : ¬ C16_inv_reachable_full := by
-  intro h
-  have := h wIsUrl wD16a
-  revert this
+/-- `webseeds[0:0] = [b, b]` (stored the duplicate): now `[b]` -/
+def wD16aSlice : List Op :=
+  [.webseeds (.edit (.setSlice (some 0) (some 0) none ["http://b/2", "http://b/2"]))]
+
+/-- `trackers = a; trackers[0][1:1] = [b, b]` -/
+def wD16aTier : List Op :=
+  [.trackers (.set (.str "http://a/1")),
+   .trackers (.tier 0 (.setSlice (some 1) (some 1) none ["http://b/2", "http://b/2"]))]
+
+example : run wIsUrl MI.init wD16a = { urlList := some ["http://b/2"] } ∧
+    run wIsUrl MI.init wD16aSlice = { urlList := some ["http://b/2"] } ∧
+    run wIsUrl MI.init wD16aTier =
+      { announce := some "http://a/1", announceList := some [["http://a/1", "http://b/2"]] } ∧
+    (∀ w ∈ [wD16a, wD16aSlice, wD16aTier],
+      Spec.holds wIsUrl (run wIsUrl MI.init w) (readBack wIsUrl (run wIsUrl MI.init w)) = true) := by
   decide
 
-example : run wIsUrl MI.init wD16a = { urlList := some ["None", "http://b/2"] } ∧
-    readBack wIsUrl (run wIsUrl MI.init wD16a) = none := by decide
-
-/-- D16a, slice assignment: `webseeds[0:0] = [b, b]` stores the duplicate -/
-def wD16aSlice : List Op := [.webseeds (.edit (.setSlice (some 0) (some 0) ["http://b/2", "http://b/2"]))]
-
-theorem C16_setslice_duplicates_counterexample :
-    run wIsUrl MI.init wD16aSlice = { urlList := some ["http://b/2", "http://b/2"] } ∧
-    Spec.holds wIsUrl (run wIsUrl MI.init wD16aSlice) (readBack wIsUrl (run wIsUrl MI.init wD16aSlice)) = false := by
-  decide
+/-! ### counterexample (open finding D16b; the same history is replayed on the code) -/
 
 /-- D16b: `trackers[0:0] = [[a, b]]` stores the URL strings as tiers -/
 def wD16b : List Op :=
   [.trackers (.setSlice (some 0) (some 0) [.list ["http://a/1", "http://b/2"]])]
 
-theorem C16_tiers_setslice_counterexample :
-    (run wIsUrl MI.init wD16b).announce = some "h" ∧
-    readBack wIsUrl (run wIsUrl MI.init wD16b) = none ∧
-    ¬ C16_inv_reachable_full := by
-  refine ⟨by decide, by decide, ?_⟩
+theorem C16_inv_reachable_counterexample : ¬ C16_inv_reachable_full := by
   intro h
   have := h wIsUrl wD16b
   revert this
+  decide
+
+theorem C16_tiers_setslice_counterexample :
+    (run wIsUrl MI.init wD16b).announce = some "h" ∧
+    readBack wIsUrl (run wIsUrl MI.init wD16b) = none := by
+  refine ⟨by decide, by decide⟩
+
+/-- the excluded operation is exactly that one -/
+example : (wD16b.map Op.affected) = [true] ∧ (wD16a ++ wD16aSlice ++ wD16aTier).all (fun o => !o.affected) = true := by
   decide
 
 /-! ### regression: the former finding D16c (repaired in /repo ae2b587) -/
@@ -157,8 +247,9 @@ theorem C16_tiers_setslice_counterexample :
 def wIsUrlLead (s : String) : Bool := s == " http://l/" || s == "http://a/1"
 
 /-- `webseeds.append(' http://l/')` (formerly stored as the invalid '+http://l/'): URL error,
-    nothing stored; the same on a tier, by assignment and by `replace` (which no longer clears the
-    list before it fails); the property holds after the whole history -/
+    nothing stored; the same on a tier, by assignment, by `replace` (which no longer clears the
+    list before it fails) and by index / slice assignment; the property holds after the whole
+    history -/
 def wLead : List Op :=
   [.webseeds (.edit (.append " http://l/")),
    .webseeds (.set (.list ["http://a/1"])),
@@ -166,7 +257,9 @@ def wLead : List Op :=
    .webseeds (.edit (.extend ["http://a/1", " http://l/"])),
    .trackers (.set (.str "http://a/1")),
    .trackers (.tier 0 (.append " http://l/")),
-   .trackers (.append (.str " http://l/"))]
+   .trackers (.append (.str " http://l/")),
+   .webseeds (.edit (.setItem 0 " http://l/")),
+   .trackers (.tier 0 (.setSlice none none none ["http://a/1", " http://l/"]))]
 
 example : step wIsUrlLead MI.init (.webseeds (.edit (.append " http://l/"))) = (MI.init, .error .url) := by
   decide
@@ -176,48 +269,58 @@ example : (∀ op ∈ wLead, op.affected = false) ∧
     Spec.holds wIsUrlLead (run wIsUrlLead MI.init wLead) (readBack wIsUrlLead (run wIsUrlLead MI.init wLead)) = true ∧
     (wLead.map fun op => (step wIsUrlLead (run wIsUrlLead MI.init [.webseeds (.set (.list ["http://a/1"])),
         .trackers (.set (.str "http://a/1"))]) op).2) =
-      [.error .url, .ok, .error .url, .error .url, .ok, .error .url, .error .url] := by
+      [.error .url, .ok, .error .url, .error .url, .ok, .error .url, .error .url, .error .url, .error .url] := by
   decide
 
-/-! ### a list object that the caller holds (finding D16d) -/
-
-/-- the property for a held `Trackers` object as stated: after every history of operations on the
-    object obtained from the empty torrent the metainfo mirrors the object -/
-def C16_held_sync_full : Prop :=
-  ∀ (isUrl : String → Bool) (ops : List HOp),
-    Mirrors (heldRun isUrl MI.init ⟨[], true⟩ ops).1 (heldRun isUrl MI.init ⟨[], true⟩ ops).2.tiers
+/-! ### a list object that the caller holds -/
 
 /-- no operation — successful or raising — switches the change callback of a held `Trackers`
     object off (or on): `_callback_disabled()` restores it in a `finally` clause (/repo 37d74d0) -/
 theorem C16_held_callback_kept (isUrl : String → Bool) (s : MI) (h : HeldTr) (op : HOp) :
     (heldStep isUrl s h op).2.1.cb = h.cb := by
   cases op with
-  | replace vs => simp only [heldStep, heldReplace]; split <;> rfl
+  | replace vs =>
+    simp only [heldStep, heldReplace]
+    split
+    · rfl
+    · split <;> rfl
   | append v => simp only [heldStep, heldAppend]; split <;> rfl
   | clear => rfl
 
-/-- an operation on a held object that raises writes nothing; unless it is `replace`, it does not
-    change the object either -/
-theorem C16_held_error_writes_nothing (isUrl : String → Bool) (s : MI) (h : HeldTr) (op : HOp)
+/-- the loop of `Trackers.replace` that runs after the object was cleared adds the tiers of the
+    already validated `Trackers(tiers)` object again: it cannot raise and rebuilds exactly those
+    tiers — `replace` is atomic since /repo 41bec34 (it raises before the object is touched, or not
+    at all) -/
+theorem C16_held_replace_second_pass_total (isUrl : String → Bool) (vs : List TierVal) (T1 : Tiers)
+    (h1 : tiersAddAll isUrl [] vs = .ok T1) :
+    heldReplaceLoop isUrl [] (T1.map .list) = (T1, .ok) := by
+  have hT1 : TiersOK isUrl ([] ++ T1) := by simpa using tiersAddAll_ok TiersOK_nil h1
+  have := tiersAddAll_id (acc := []) (T := T1) hT1
+  exact heldReplaceLoop_of_addAll (by simpa using this)
+
+/-- an operation on a held object that raises changes NOTHING: neither the metainfo nor the object
+    (`replace` included — this was the open finding D16d) -/
+theorem C16_held_error_changes_nothing (isUrl : String → Bool) (s : MI) (h : HeldTr) (op : HOp)
     (e : Err) (herr : (heldStep isUrl s h op).2.2 = .error e) :
-    (heldStep isUrl s h op).1 = s ∧
-      ((∀ vs, op ≠ .replace vs) → (heldStep isUrl s h op).2.1 = h) := by
+    (heldStep isUrl s h op).1 = s ∧ (heldStep isUrl s h op).2.1 = h := by
   cases op with
   | replace vs =>
     simp only [heldStep, heldReplace] at herr ⊢
-    split at herr
-    · simp
-    · cases herr
+    cases h1 : tiersAddAll isUrl [] vs with
+    | error e' => exact ⟨rfl, rfl⟩
+    | ok T1 =>
+      rw [h1] at herr
+      simp only [C16_held_replace_second_pass_total isUrl vs T1 h1] at herr
+      cases herr
   | append v =>
     simp only [heldStep, heldAppend] at herr ⊢
     split at herr
-    · simp
+    · simp [*]
     · cases herr
   | clear => simp [heldStep, heldClear] at herr
 
 /-- every operation on a held object (callback set) that SUCCEEDS leaves the metainfo mirroring
-    the object — whatever the state was before, in particular after a `replace` that raised: the
-    deviation of D16d lasts until the next successful edit through the object -/
+    the object — whatever the state was before -/
 theorem C16_held_resync_on_success (isUrl : String → Bool) (s : MI) (h : HeldTr) (op : HOp)
     (hcb : h.cb = true) (hok : (heldStep isUrl s h op).2.2 = .ok) :
     Mirrors (heldStep isUrl s h op).1 (heldStep isUrl s h op).2.1.tiers := by
@@ -226,7 +329,9 @@ theorem C16_held_resync_on_success (isUrl : String → Bool) (s : MI) (h : HeldT
     simp only [heldStep, heldReplace] at hok ⊢
     split at hok
     · cases hok
-    · simp [hcb, Mirrors, writeTrackers, wOf]
+    · split at hok
+      · cases hok
+      · simp [hcb, Mirrors, writeTrackers, wOf]
   | append v =>
     simp only [heldStep, heldAppend] at hok ⊢
     split at hok
@@ -234,67 +339,134 @@ theorem C16_held_resync_on_success (isUrl : String → Bool) (s : MI) (h : HeldT
     · simp [hcb, Mirrors, writeTrackers, wOf]
   | clear => simp [heldStep, heldClear, hcb, Mirrors, writeTrackers, wOf]
 
-/-- one step on a held object whose callback is set and which the metainfo mirrors: after any
-    operation other than a `replace` that raises — successful or raising — the metainfo mirrors
-    the object again -/
-theorem C16_held_sync_step_partial (isUrl : String → Bool) (s : MI) (h : HeldTr) (op : HOp)
-    (hcb : h.cb = true) (hm : Mirrors s h.tiers) (hop : op.failingReplace isUrl = false) :
+/-- one step on a held object whose callback is set and which the metainfo mirrors: after ANY
+    operation — successful or raising, a `replace` that raises included — the metainfo mirrors the
+    object again (was `C16_held_sync_step_partial`, which excluded a failing `replace`) -/
+theorem C16_held_sync_step (isUrl : String → Bool) (s : MI) (h : HeldTr) (op : HOp)
+    (hcb : h.cb = true) (hm : Mirrors s h.tiers) :
     Mirrors (heldStep isUrl s h op).1 (heldStep isUrl s h op).2.1.tiers := by
   cases hout : (heldStep isUrl s h op).2.2 with
   | ok => exact C16_held_resync_on_success isUrl s h op hcb hout
   | error e =>
-    have hw := C16_held_error_writes_nothing isUrl s h op e hout
-    cases op with
-    | replace vs =>
-      exfalso
-      simp only [heldStep, heldReplace] at hout
-      simp only [HOp.failingReplace, ne_eq, decide_eq_false_iff_not, Decidable.not_not] at hop
-      split at hout
-      · rename_i T' e' heq; rw [heq] at hop; cases hop
-      · cases hout
-    | append v => rw [hw.1, hw.2 (fun vs => by simp)]; exact hm
-    | clear => rw [hw.1, hw.2 (fun vs => by simp)]; exact hm
+    have hw := C16_held_error_changes_nothing isUrl s h op e hout
+    rw [hw.1, hw.2]; exact hm
 
 /-- every history of any length of `replace` / `append` / `clear` on a `Trackers` object obtained
-    from a state it mirrors, without a `replace` that raises, ends with the metainfo mirroring the
-    object (failing `append`s included) -/
-theorem C16_held_sync_reachable_partial (isUrl : String → Bool) (s : MI) (h : HeldTr) (ops : List HOp)
-    (hcb : h.cb = true) (hm : Mirrors s h.tiers) (hops : ∀ op ∈ ops, op.failingReplace isUrl = false) :
+    from a state it mirrors ends with the metainfo mirroring the object (failing operations
+    included; no operation is excluded any more) -/
+theorem C16_held_sync_reachable (isUrl : String → Bool) (s : MI) (h : HeldTr) (ops : List HOp)
+    (hcb : h.cb = true) (hm : Mirrors s h.tiers) :
     Mirrors (heldRun isUrl s h ops).1 (heldRun isUrl s h ops).2.tiers := by
   induction ops generalizing s h with
   | nil => exact hm
   | cons op ops ih =>
     simp only [heldRun]
-    have h1 := C16_held_sync_step_partial isUrl s h op hcb hm (hops op (by simp))
+    have h1 := C16_held_sync_step isUrl s h op hcb hm
     have h2 := C16_held_callback_kept isUrl s h op
     rcases hst : heldStep isUrl s h op with ⟨s', h', out⟩
     rw [hst] at h1 h2
-    exact ih s' h' (h2.trans hcb) h1 (fun o ho => hops o (by simp [ho]))
+    exact ih s' h' (h2.trans hcb) h1
 
-/-- D16d: `t.trackers = [[a]]; tr = t.trackers; tr.replace([[b], ['foo']])` raises the URL error
-    with the object half replaced (`[[b]]`) while the metainfo keeps `a` -/
+/-- the property for a held `Trackers` object as stated (the former `def C16_held_sync_full`, which
+    the code falsified — D16d): after every history of operations on the object obtained from the
+    empty torrent the metainfo mirrors the object -/
+theorem C16_held_sync (isUrl : String → Bool) (ops : List HOp) :
+    Mirrors (heldRun isUrl MI.init ⟨[], true⟩ ops).1 (heldRun isUrl MI.init ⟨[], true⟩ ops).2.tiers :=
+  C16_held_sync_reachable isUrl MI.init ⟨[], true⟩ ops rfl (by decide)
+
+/-- regression of the former finding D16d: `t.trackers = [[a]]; tr = t.trackers;
+    tr.replace([[b], ['foo']])` raises the URL error and leaves the object `[[a]]` (it was `[[b]]`),
+    the metainfo keeps `a`; a later append writes `[[a], [a+b]]` (it wrote `[[b], [a+b]]`: `a` lost) -/
 def wD16d : List HOp :=
   [.append (.list ["http://a/1"]), .replace [.list ["http://b/2"], .list ["foo"]]]
 
-theorem C16_held_replace_counterexample : ¬ C16_held_sync_full := by
+example : heldRun wIsUrl MI.init ⟨[], true⟩ wD16d =
+      ({ announce := some "http://a/1" }, ⟨[["http://a/1"]], true⟩) ∧
+    (heldStep wIsUrl { announce := some "http://a/1" } ⟨[["http://a/1"]], true⟩
+      (.replace [.list ["http://b/2"], .list ["foo"]])).2.2 = .error .url ∧
+    heldRun wIsUrl MI.init ⟨[], true⟩ (wD16d ++ [.append (.str "http://a b")]) =
+      ({ announce := some "http://a/1", announceList := some [["http://a/1"], ["http://a+b"]] },
+       ⟨[["http://a/1"], ["http://a+b"]], true⟩) ∧
+    heldRun wIsUrl MI.init ⟨[], true⟩ (wD16d ++ [.replace [.list ["http://b/2", "http://a b"], .str "http://a+b", .str ""]]) =
+      ({ announce := some "http://b/2", announceList := some [["http://b/2", "http://a+b"]] },
+       ⟨[["http://b/2", "http://a+b"]], true⟩) := by
+  refine ⟨?_, ?_, ?_, ?_⟩ <;> decide +kernel
+
+/-! ### any operation on a held `Trackers` object (the fresh-getter translation of the harness) -/
+
+/-- ONE operation of the whole tiers state machine (insert, append, extend, +=, delete, slice
+    delete, clear, remove, pop, replace, `tr[i] = v`, every operation on one of its tiers — index /
+    slice assignment included — but not `tr[a:b] = …`, D16b) on a held `Trackers` object with good
+    tiers that the metainfo mirrors: the object has good tiers again and the metainfo mirrors it,
+    whether the operation succeeded or raised -/
+theorem C16_held_any_step_partial (isUrl : String → Bool) (s : MI) (T : Tiers) (op : TOp)
+    (hT : TiersOK isUrl T) (hm : Mirrors s T) (hop : (Op.trackers op).affected = false) :
+    TiersOK isUrl (heldOp isUrl s T op).2.1 ∧ Mirrors (heldOp isUrl s T op).1 (heldOp isUrl s T op).2.1 := by
+  have hc : op.clean = true := affected_false_iff.1 hop
+  unfold heldOp
+  rcases ho : tiersOp isUrl T op with ⟨last, out⟩
+  cases last with
+  | none => exact ⟨hT, hm⟩
+  | some w =>
+    obtain ⟨T', hT', rfl⟩ := tiersOp_ok hT hc ho
+    exact ⟨hT', rfl, rfl⟩
+
+/-- … and every history of such operations -/
+theorem C16_held_any_reachable_partial (isUrl : String → Bool) (s : MI) (T : Tiers) (ops : List TOp)
+    (hT : TiersOK isUrl T) (hm : Mirrors s T) (hops : ∀ op ∈ ops, (Op.trackers op).affected = false) :
+    TiersOK isUrl (heldOps isUrl s T ops).2 ∧ Mirrors (heldOps isUrl s T ops).1 (heldOps isUrl s T ops).2 := by
+  induction ops generalizing s T with
+  | nil => exact ⟨hT, hm⟩
+  | cons op ops ih =>
+    simp only [heldOps]
+    have h1 := C16_held_any_step_partial isUrl s T op hT hm (hops op (by simp))
+    rcases hst : heldOp isUrl s T op with ⟨s', T', out⟩
+    rw [hst] at h1
+    exact ih s' T' h1.1 h1.2 (fun o ho => hops o (by simp [ho]))
+
+/-- the full statement for ANY history of operations on a held `Trackers` object obtained from the
+    empty torrent — falsified by the code through `tr[a:b] = …` (D16b) -/
+def C16_held_any_reachable_full : Prop :=
+  ∀ (isUrl : String → Bool) (ops : List TOp),
+    TiersOK isUrl (heldOps isUrl MI.init [] ops).2 ∧
+      Mirrors (heldOps isUrl MI.init [] ops).1 (heldOps isUrl MI.init [] ops).2
+
+/-- D16b on a held object: `tr = t.trackers; tr[0:0] = [[a, b]]` leaves the URL strings as tiers in
+    the object (its "tiers" are the characters 'h', 't', …) -/
+theorem C16_held_any_reachable_counterexample : ¬ C16_held_any_reachable_full := by
   intro h
-  have := h wIsUrl wD16d
-  revert this
+  have h1 := (h wIsUrl [.setSlice (some 0) (some 0) [.list ["http://a/1", "http://b/2"]]]).1.2.2 "h"
+    (by decide)
+  have h2 := h1.1
+  revert h2
   decide
 
-example : heldRun wIsUrl MI.init ⟨[], true⟩ wD16d =
-    ({ announce := some "http://a/1" }, ⟨[["http://b/2"]], true⟩) := by decide
+/-- "callback alive ⇒ same state machine": on a state that mirrors good tiers `T`, an operation on
+    the held object (`heldOp`) and the same operation through a fresh getter call
+    (`torrent.trackers.<op>`, `trackersOp`) write the same metainfo and return the same outcome, and
+    a fresh `torrent.trackers` afterwards returns exactly the tiers of the held object — this is the
+    translation the correspondence harness uses for held-object histories -/
+theorem C16_held_same_as_fresh_partial (isUrl : String → Bool) (s : MI) (T : Tiers) (op : TOp)
+    (hT : TiersOK isUrl T) (hm : Mirrors s T) (hset : ∀ v, op ≠ .set v)
+    (hop : (Op.trackers op).affected = false) :
+    trackersOp isUrl s op = ((heldOp isUrl s T op).1, (heldOp isUrl s T op).2.2) ∧
+    getTrackers isUrl (heldOp isUrl s T op).1 = .ok (heldOp isUrl s T op).2.1 := by
+  have hstep := C16_held_any_step_partial isUrl s T op hT hm hop
+  refine ⟨?_, getTrackers_eq hstep.1 hstep.2.1 hstep.2.2⟩
+  rw [trackersOp_generic hset, getTrackers_eq hT hm.1 hm.2]
+  unfold heldOp
+  rcases ho : tiersOp isUrl T op with ⟨last, out⟩
+  cases last <;> simp [applyWritten, ho]
 
-/-- … and the next successful edit writes the half-replaced object (`a` is gone for good) -/
-example : heldRun wIsUrl MI.init ⟨[], true⟩ (wD16d ++ [.append (.str "http://a b")]) =
-    ({ announce := some "http://b/2", announceList := some [["http://b/2"], ["http://a+b"]] },
-     ⟨[["http://b/2"], ["http://a+b"]], true⟩) := by decide
-
-/-- non-vacuity of `C16_held_sync_reachable_partial`: a history with a failing `append` and a
-    successful `replace` -/
-example : (∀ op ∈ ([.append (.list ["http://a/1"]), .append (.list ["foo"]),
-      .replace [.list ["http://b/2"], .str "http://a b"], .append (.str "http://a+b")] : List HOp),
-      op.failingReplace wIsUrl = false) ∧
-    (wD16d.map (HOp.failingReplace wIsUrl)) = [false, true] := by decide
+/-- non-vacuity: a held history with failing operations, an index assignment on a tier that removes
+    the tier, and a failing `replace` -/
+example :
+    let ops : List TOp := [.append (.list ["http://a/1", "http://b/2"]), .append (.str "udp://c:80/3"),
+      .replace [.list ["http://a b"], .list ["foo"]], .tier 1 (.setItem 0 "http://b/2"),
+      .tier 0 (.setSlice none none (some (-1)) ["http://a/1", "http://a b"]), .tier 5 .clear]
+    (∀ op ∈ ops, (Op.trackers op).affected = false) ∧
+    heldOps wIsUrl MI.init [] ops =
+      ({ announce := some "http://a+b", announceList := some [["http://a+b", "http://a/1"]] },
+       [["http://a+b", "http://a/1"]]) := by decide
 
 end Torf.C16
